@@ -231,3 +231,48 @@ def scope_lines(l0: int, d1: int, d2: int, d3: int, d4: int, q: int) -> bool:
     ok = ok and inner is want
     tock("scope_lines")
     return ok
+
+
+def symbol_lines(l0: int, d1: int, d2: int, d3: int, d4: int) -> bool:
+    """serve_document_symbols TRACED on an index built with the real constructors and FREE symbolic line numbers:
+    module [l0 .. end], type inside, subroutine inside; reported 0-based start/end lines, kinds and containers
+    pre: 1 <= l0 and 1 <= d1 and 1 <= d2 and 1 <= d3 and 1 <= d4
+    post: _
+    """
+    tick("symbol_lines")
+    from fortls.parsers.internal.type import Type
+    from fortls.parsers.internal.variable import Variable
+    import fortls.langserver as L
+
+    f = FortranFile("/w/a.f90")
+    ast = FortranAST(f)
+    m = Module(ast, l0, "m")
+    ast.add_scope(m, None)
+    t = Type(ast, l0 + d1, "t", [])
+    ast.add_scope(t, None, req_container=True)
+    c = Variable(ast, l0 + d1 + 1, "comp", "INTEGER", [])
+    ast.add_variable(c)
+    ast.end_scope(l0 + d1 + d2)
+    s = Subroutine(ast, l0 + d1 + d2 + d3, "s")
+    ast.add_scope(s, None)
+    ast.end_scope(l0 + d1 + d2 + d3 + d4)
+    end_m = l0 + d1 + d2 + d3 + d4 + 1
+    ast.end_scope(end_m)
+    ast.close_file(end_m)
+    f.ast = ast
+    srv = SRV
+    real = L.path_from_uri
+    L.path_from_uri = lambda uri: "/w/a.f90"
+    old_ws = srv.workspace
+    srv.workspace = {"/w/a.f90": f}
+    try:
+        out = srv.serve_document_symbols({"params": {"textDocument": {"uri": "file:///w/a.f90"}}})
+    finally:
+        L.path_from_uri = real
+        srv.workspace = old_ws
+    got = [(o["name"], o["kind"], o.get("containerName"), o["location"]["range"]["start"]["line"], o["location"]["range"]["end"]["line"]) for o in out]
+    want = [("m", 2, None, l0 - 1, end_m - 1), ("t", 5, "m", l0 + d1 - 1, l0 + d1 + d2 - 1), ("comp", 13, "t", l0 + d1, l0 + d1),
+            ("s", 12, "m", l0 + d1 + d2 + d3 - 1, l0 + d1 + d2 + d3 + d4 - 1)]
+    ok = got == want
+    tock("symbol_lines")
+    return ok
